@@ -616,18 +616,19 @@ func (e *fnEnc) typeInvFormulas(t string, T types.Type, heap map[string]string) 
 	return out
 }
 
-// writesType reports whether fn may write a field of the struct type behind pointer type T.
+// writesType reports whether fn itself (its own instructions, not its callees: they answer for themselves)
+// writes a field of the struct type behind pointer type T.
 func (e *fnEnc) writesType(T types.Type) bool {
 	pt, ok := T.Underlying().(*types.Pointer)
 	if !ok {
 		return false
 	}
 	s := e.vc.P.Summ[e.fn]
-	if s == nil || s.All {
+	if s == nil {
 		return true
 	}
 	prefix := "F!" + e.S().typeID(pt.Elem()) + "!"
-	for k := range s.Writes {
+	for k := range s.direct {
 		if strings.HasPrefix(k, prefix) {
 			return true
 		}
